@@ -5,6 +5,7 @@ import (
 	"strings"
 	"testing"
 
+	cparsers "github.com/pip-services3-gox/pip-services3-expressions-gox/calculator/parsers"
 	"github.com/pip-services3-gox/pip-services3-expressions-gox/tokenizers"
 	"pgregory.net/rapid"
 	"verif/pbt/evid"
@@ -133,7 +134,7 @@ func TestC12_Exhaustive(t *testing.T) {
 	rec.Bounds = fmt.Sprintf("all strings of length 0..%d over the %d-symbol alphabet %q x %d option sets x 4 tokenizers", maxLen, len(c12Alphabet), strings.Join(c12Alphabet, ""), len(optSets))
 	enumStrings(c12Alphabet, maxLen, true, func(parts []string) {
 		in := runesOf(parts)
-		for _, k := range tokKinds {
+		for _, k := range tokKindsExt {
 			for _, o := range optSets {
 				c12Run(rec, c12Case{k, o, in})
 			}
@@ -176,7 +177,7 @@ func TestC12_Rapid(t *testing.T) {
 	rec := evid.New("C12", "TestC12_Rapid", "C12", c12Rule+"; rapid: multi-line fragment-built inputs x random option set out of all 128")
 	defer finish(t, rec)
 	runRapid(t, pick(40000, 300000), 12, func(rt *rapid.T) {
-		kind := rapid.SampledFrom(tokKinds).Draw(rt, "tok")
+		kind := rapid.SampledFrom(tokKindsExt).Draw(rt, "tok")
 		c := c12Case{kind, rapid.IntRange(0, optAll).Draw(rt, "opts"), genMultiline(rt, kind)}
 		if c12Run(rec, c) {
 			rt.Fatalf("C12 violated for %+v", c)
@@ -193,4 +194,88 @@ func TestC12_Rapid(t *testing.T) {
 			t.Fatalf("HARNESS-ERROR vacuous run: option sets never drawn: %v", missing)
 		}
 	}
+}
+
+// ---- positions quoted in syntax-error messages point at the offending token ---------------------------------
+
+type c12ErrCase struct {
+	Toks []etok   `json:"toks"`
+	Seps []string `json:"seps"` // separator written before each token (blanks and line breaks)
+}
+
+func checkC12Err(c c12ErrCase) *evid.Fail {
+	if len(c.Toks) == 0 || hasJunk(c.Toks) {
+		return nil
+	}
+	tree, failAt := refParse(c.Toks)
+	if tree != nil || failAt >= len(c.Toks) {
+		return nil
+	}
+	var sb strings.Builder
+	offsets := make([]int, len(c.Toks))
+	for i, t := range c.Toks {
+		sep := " "
+		if i < len(c.Seps) {
+			sep = c.Seps[i]
+		}
+		if i == 0 {
+			sep = "" // the parser trims the expression
+		}
+		sb.WriteString(sep)
+		offsets[i] = len([]rune(sb.String()))
+		sb.WriteString(t.S)
+	}
+	src := sb.String()
+	p := cparsers.NewExpressionParser()
+	var err error
+	if g := guard(func() { err = p.ParseString(src) }); g != nil {
+		return g
+	}
+	if err == nil {
+		return nil // acceptance of non-sentences is C02's subject
+	}
+	m := errPosRe.FindStringSubmatch(err.Error())
+	if m == nil {
+		return nil
+	}
+	want := refCoords([]rune(src))[offsets[failAt]+1]
+	if m[1] != fmt.Sprint(want[0]) || m[2] != fmt.Sprint(want[1]) {
+		return evid.F("error-position", "input %q: the error %q quotes %s:%s, the offending token #%d %q stands at %d:%d", src, err.Error(), m[1], m[2], failAt, c.Toks[failAt].S, want[0], want[1])
+	}
+	return nil
+}
+
+func init() { regReplay("C12.err", checkC12Err) }
+
+func TestC12_RapidErrorPositions(t *testing.T) {
+	rec := evid.New("C12", "TestC12_RapidErrorPositions", "C12.err", "generated valid expressions with 1-3 token-level mutations, written over several lines; when the reference grammar rejects the sequence at token k and the parser's error quotes a position, it must be the line and column of token k (the statement's last sentence); non-trivial = the offending token is not the first one; distinct by source text")
+	defer finish(t, rec)
+	cfg := c02GenCfg()
+	runRapid(t, pick(20000, 150000), 1212, func(rt *rapid.T) {
+		tree := genSized(rt, cfg, rapid.SampledFrom([]int{1, 2, 3, 4, 6, 8, 12}).Draw(rt, "size"))
+		toks := printTokens(tree, rapid.IntRange(0, 2).Draw(rt, "style"), nil)
+		for m := rapid.IntRange(1, 3).Draw(rt, "mutations"); m > 0 && len(toks) > 0; m-- {
+			i := rapid.IntRange(0, len(toks)-1).Draw(rt, "at")
+			switch rapid.IntRange(0, 3).Draw(rt, "mut") {
+			case 0:
+				toks = append(toks[:i], append([]etok{rapid.SampledFrom(c02Vocabulary).Draw(rt, "ins")}, toks[i:]...)...)
+			case 1:
+				toks = append(append([]etok{}, toks[:i]...), toks[i+1:]...)
+			case 2:
+				toks = append([]etok{}, toks...)
+				toks[i] = rapid.SampledFrom(c02Vocabulary).Draw(rt, "rep")
+			default:
+				toks = append(toks[:i+1], append([]etok{toks[i]}, toks[i+1:]...)...)
+			}
+		}
+		c := c12ErrCase{Toks: toks}
+		for range toks {
+			c.Seps = append(c.Seps, rapid.SampledFrom([]string{" ", " ", "  ", "\n", "\r\n", " \n  ", "\t"}).Draw(rt, "sep"))
+		}
+		_, failAt := refParse(toks)
+		rec.Case(jsonStr(c), failAt > 0 && failAt < len(toks), func() interface{} { return c })
+		if f := checkC12Err(c); f != nil && rec.Fail(f, c) {
+			rt.Fatalf("%v", f)
+		}
+	})
 }
